@@ -96,7 +96,9 @@ type expect struct {
 	errors  []string
 }
 
-func posStr(p cedar.Position) string { return fmt.Sprintf("%s:%d:%d:%d", p.Filename, p.Offset, p.Line, p.Column) }
+func posStr(p cedar.Position) string {
+	return fmt.Sprintf("%s:%d:%d:%d", p.Filename, p.Offset, p.Line, p.Column)
+}
 
 func build(items []item) built {
 	var sb strings.Builder
